@@ -325,6 +325,72 @@ def rule_vacancy(ck, rid="C02.R6"):
                            f"current_charging_rates hands out: the vacant station keeps reporting the departed EV's last rate", sink=f"vacate-clears:{g.qual}")
         ck.floor(rid, sites, 1, "call sites of the EVSE-level unplug()")
         return
+    # preallocated form: `rates = np.zeros(<number of EVSEs>)`, then one slot written per connected EVSE.  The slot must be the EVSE's own
+    # position: the loop counter of an enumeration of self._EVSEs, or the registered index of the EVSE's / the dictionary key's station id.
+    # An index taken from the *EV* (ev.station_id) is what the EV claims, not where it is attached.
+    if isinstance(e0, ast.Call) and call_name(e0) in ("zeros", "zeros_like") and isinstance(r.expr, ast.Name):
+        vec = r.expr.id
+        size = canon(e0.args[0]) if e0.args else ""
+        ck.require(size in ("len(self._EVSEs)", "len(self.station_ids)", "len(self._EVSEs.values())", "len(self._EVSEs.keys())", "self._voltages.size", "len(self._voltages)",
+                            "self._voltages", "len(self._station_ids_dict)"), rid, f, e0, ok="one slot per registered EVSE, zero until written",
+                   bad=f"the preallocated vector has size `{size}`, not one slot per registered EVSE", sink="one-per-evse")
+        stores = [n for n in fl.cfg.nodes if n.kind == "stmt" and isinstance(n.stmt, ast.Assign) and len(n.stmt.targets) == 1
+                  and isinstance(n.stmt.targets[0], ast.Subscript) and dotted(n.stmt.targets[0].value) == vec]
+        others = [n for n, k, p, t in state_writes(fl, roots=(vec,)) if n not in stores]
+        if not stores or others:
+            raise AnalysisError(f"current_charging_rates: how `{vec}` is filled is not recognised")
+        for sn in stores:
+            loops = [t for t, lab in fl.cfg.edges_dominating(sn) if t.kind == "for" and lab is True]
+            if len(loops) != 1:
+                raise AnalysisError(f"current_charging_rates: slot store `{src(sn.stmt)[:60]}` is not inside exactly one loop")
+            lp = loops[0].stmt
+            it = lp.iter
+            counter = evse = key = None
+            if isinstance(it, ast.Call) and call_name(it) == "enumerate" and it.args and isinstance(lp.target, ast.Tuple) and len(lp.target.elts) == 2 \
+                    and not it.keywords and len(it.args) == 1:
+                counter = dotted(lp.target.elts[0])
+                inner_t, it = lp.target.elts[1], it.args[0]
+            else:
+                inner_t = lp.target
+            ic = canon(it)
+            if ic in ("self._EVSEs.values()",):
+                evse = dotted(inner_t)
+            elif ic in ("self._EVSEs.items()",) and isinstance(inner_t, ast.Tuple) and len(inner_t.elts) == 2:
+                key, evse = dotted(inner_t.elts[0]), dotted(inner_t.elts[1])
+            elif ic in ("self._EVSEs", "self._EVSEs.keys()", "self.station_ids"):
+                key = dotted(inner_t)
+            else:
+                raise AnalysisError(f"current_charging_rates: the filling loop does not walk the registered EVSEs: {ic}")
+            idx = fl.expand(sn.stmt.targets[0].slice, sn)
+            ix = canon(idx)
+            own = {counter} if counter else set()
+            # the loop variables as the expansion writes them (iteration over the dictionary is rewritten to its key list)
+            evse_x = canon(fl.expand(ast.Name(id=evse, ctx=ast.Load()), sn)) if evse else None
+            key_x = canon(fl.expand(ast.Name(id=key, ctx=ast.Load()), sn)) if key else None
+            for ev_ in [x for x in (evse, evse_x) if x]:
+                own |= {f"self._station_ids_dict[{ev_}.station_id]", f"self.station_ids.index({ev_}.station_id)", f"self._station_ids_dict[{ev_}._station_id]"}
+            for k_ in [x for x in (key, key_x) if x]:
+                own |= {f"self._station_ids_dict[{k_}]", f"self.station_ids.index({k_})"}
+            if evse_x and evse_x.startswith("self._EVSEs[") and evse_x.endswith("]"):
+                k_ = evse_x[len("self._EVSEs["):-1]          # the EVSE registered under key k_: its own station id is k_
+                own |= {f"self._station_ids_dict[{k_}]", f"self.station_ids.index({k_})"}
+            val = fl.expand(sn.stmt.value, sn)
+            vc = canon(val)
+            who = evse_x or evse or (f"self._EVSEs[{key_x or key}]" if key else "?")
+            by_ev = any(isinstance(x, ast.Attribute) and x.attr in ("station_id", "_station_id") and canon(x.value) in (f"{who}.ev", f"{who}._ev") for x in ast.walk(idx))
+            if by_ev:
+                ck.violation(rid, f, sn.stmt, f"the slot is chosen by the *EV's* station id (`{ix[:70]}`), not by the EVSE the EV is attached to: an EV whose "
+                             "station id differs from the EVSE it is plugged into has its rate recorded in another station's row", sink="slot-by-ev-id", positive=True)
+            elif ix not in own:
+                raise AnalysisError(f"current_charging_rates: slot index `{ix[:70]}` not recognised as the EVSE's own position")
+            else:
+                ck.holds(rid, f, sn.stmt, "each EVSE writes its own slot")
+            guard = any((c := cmp_norm(fl.expand(a, sn), t)) and canon(c[0]) in (f"{who}.ev", f"{who}._ev") and canon(c[2]) == "None" and c[1] in ("is not", "!=")
+                        for a, t in facts_at(fl, sn))
+            ck.require(vc in (f"{who}.ev.current_charging_rate", f"{who}._ev.current_charging_rate", f"{who}.ev._current_charging_rate") and guard, rid, f, sn.stmt,
+                       ok="connected: the EV's current charging rate, read under a None-guard",
+                       bad="a connected station must report evse.ev.current_charging_rate under an `ev is not None` guard", sink="connected-rate")
+        return
     elems = collect_list(fl, r.expr, r)
     if elems is None:
         raise AnalysisError(f"current_charging_rates: construction not recognised: {src(r.expr)}")
